@@ -166,7 +166,10 @@ def expect_operation(op_spec, ops_by_name):
     if isinstance(op_spec, str) and op_spec in ops_by_name:
         op_spec = ops_by_name[op_spec]
     if isinstance(op_spec, str):
-        return {"name": op_spec, "type": op_spec, "meta": {}, "param_source": None, "params": {"include-in-reporting": op_spec not in ADMIN_OPS}}
+        # (a string that is no built-in operation type is a user-defined type: no reporting default is added)
+        builtin = op_spec in ("search", "bulk", "force-merge", "raw-request", "sleep")
+        return {"name": op_spec, "type": op_spec, "meta": {}, "param_source": None,
+                "params": {"include-in-reporting": op_spec not in ADMIN_OPS} if builtin else {}}
     typ = op_spec["operation-type"]
     params = dict(op_spec)
     known = typ in ("search", "bulk", "force-merge", "raw-request", "sleep")
@@ -468,6 +471,32 @@ def challenge_models():
         yield f"C:challenges-2-default-{int(d1)}-selected-c1", m, "c1"
 
 
+def sequence_models():
+    """several tasks of one or two challenges that mix inline operations and references by name / by operation type: an inline
+    operation is private to its task, a plain string that is not a defined operation is an operation of that type without parameters"""
+    inline_fm = {"operation-type": "force-merge", "max-num-segments": 1, "request-timeout": 7}
+    inline_named = {"operation-type": "search", "name": "my-inline", "body": {"query": {"match_all": {}}}, "cache": True}
+    inline_like_defined = {"operation-type": "search", "name": "op-search", "body": {"query": {"term": {"x": 1}}}}
+    seqs = [
+        [{"operation": inline_fm}, {"operation": "force-merge", "name": "plain-fm"}],
+        [{"operation": "force-merge", "name": "plain-fm"}, {"operation": inline_fm}],
+        [{"operation": inline_named, "name": "t1"}, {"operation": "my-inline", "name": "t2"}],
+        [{"operation": inline_fm, "name": "a"}, {"operation": dict(inline_fm, **{"max-num-segments": 5}), "name": "b"}, {"operation": "force-merge", "name": "c"}],
+        [{"operation": inline_like_defined, "name": "shadow"}, {"operation": "op-search", "name": "defined"}],
+        [{"parallel": {"tasks": [{"operation": inline_fm, "name": "p1"}, {"operation": "force-merge", "name": "p2"}]}}, {"operation": "force-merge", "name": "after"}],
+    ]
+    for i, sq in enumerate(seqs):
+        m = base_model()
+        m["challenges"][0]["schedule"] = copy.deepcopy(sq)
+        yield f"S:{i}", m, None
+        # the same, spread over two challenges (the reader shares its operation lookup between challenges)
+        if len(sq) >= 2 and "parallel" not in sq[0]:
+            for sel in (None, "c1"):
+                m = base_model()
+                m["challenges"] = [{"name": "c0", "default": True, "schedule": copy.deepcopy(sq[:1])}, {"name": "c1", "schedule": copy.deepcopy(sq[1:])}]
+                yield f"S:{i}:two-challenges:{sel}", m, sel
+
+
 def corpora_models():
     docsets = [
         {"source-file": "docs.json.bz2", "document-count": 10, "compressed-bytes": 100, "uncompressed-bytes": 1000},
@@ -558,6 +587,9 @@ def invalid_models():
             mut("ramp-up-above-warmup-period", lambda m: sched(m)[0].update({"warmup-time-period": 1, "time-period": 5, "ramp-up-time-period": 3})),
             mut("ramp-up-on-nested-task", lambda m: sched(m)[1]["parallel"]["tasks"][0].update({"warmup-time-period": 4, "time-period": 5, "ramp-up-time-period": 2})),
             mut("unknown-completed-by", lambda m: sched(m)[1]["parallel"].update({"completed-by": "nope"})),
+            # the name of an *operation* used by a differently named task is not a task name
+            mut("completed-by-operation-name", lambda m: sched(m)[1]["parallel"].update({"completed-by": "op-bulk"})),
+            mut("completed-by-task-outside-parallel", lambda m: sched(m)[1]["parallel"].update({"completed-by": "t1"})),
             mut("indices-and-data-streams", lambda m: m.update({"data-streams": [{"name": "ds"}]})),
             mut("missing-operation-in-task", lambda m: sched(m)[0].pop("operation")),
             mut("schedule-and-challenges", lambda m: m.update({"schedule": [{"operation": "op-search"}]})),
@@ -601,7 +633,7 @@ def _job(arg):
 
 
 def run(tier, seed):
-    valid = [(l, m, None) for l, m in task_models(tier)] + [(l, m, None) for l, m in parallel_models(tier)] + list(challenge_models()) + [
+    valid = [(l, m, None) for l, m in task_models(tier)] + [(l, m, None) for l, m in parallel_models(tier)] + list(challenge_models()) + list(sequence_models()) + [
         (l, m, None) for l, m in corpora_models()
     ] + [(l, m, None) for l, m in file_models()]
     invalid = list(invalid_models())
